@@ -80,6 +80,9 @@ fn renderings(st: &Step) -> Vec<Render> {
     for d in st.after_debug {
         push("stored-passkey/debug", d.clone().into_bytes());
     }
+    for d in st.after_spki {
+        push("stored-key/public_key_der_from_cose_key", d.clone());
+    }
     r
 }
 
@@ -169,12 +172,56 @@ fn u2f_workload(rep: &mut Report, seed: u64, n: usize) {
     }
 }
 
+/// Credentials that did not come from this library's make_credential (imported, written by another
+/// implementation): PRF secrets of other lengths than 32 bytes. Whatever comes back from an assertion
+/// with them - a response, a status, or the message of a panic - is scanned like any other output.
+fn imported_credentials(rep: &mut Report, seed: u64, n: usize) {
+    use passkey_types::ctap2;
+    for k in 0..n as u64 {
+        let mut rng = Rng::derive(seed, "c06-imp", k);
+        let rig = crate::util::Rig::ok(crate::collab::Disc::Full);
+        let l1 = *rng.pick(&[16usize, 31, 32, 33, 48, 64]);
+        let l2 = *rng.pick(&[0usize, 16, 32, 40]);
+        let id = rng.bytes(16);
+        let hm = Some((rng.bytes(l1), if l2 == 0 { None } else { Some(rng.bytes(l2)) }));
+        let (pk, _, _) = crate::util::seeded_passkey(&mut rng, "example.com", &id, Some(b"u"), Some(1), hm);
+        rig.store.insert_raw(pk);
+        let uv = rng.bool();
+        rig.uv.set_outcome(crate::collab::UvOutcome::Check { presence: true, verification: uv });
+        let mut auth = rig.auth(crate::util::AuthCfg { hmac: crate::util::HmacCfg::WithoutUv, ..Default::default() });
+        let case = json!({"index": 2_000_000 + k, "op": "assertion with an imported credential", "prf_secret_lengths": [l1, l2], "user_verified": uv});
+        let ext = ctap2::get_assertion::ExtensionInputs {
+            hmac_secret: None,
+            prf: Some(ctap2::extensions::AuthenticatorPrfInputs { eval: Some(ctap2::extensions::AuthenticatorPrfValues { first: rng.arr32(), second: rng.bool().then(|| [7u8; 32]) }), eval_by_credential: None }),
+        };
+        let secrets = secrets_of(&rig.store.snapshot());
+        let req = crate::util::ga_request("example.com", &rng.bytes(32), Some(vec![crate::util::descriptor(&id)]), Some(ext), true, uv);
+        let mut renders = Vec::new();
+        match catch(|| block_on(auth.get_assertion(req))) {
+            Ok(Ok(resp)) => {
+                rep.count("imported_assertions_ok");
+                renders.push(Render { kind: "get_assertion/cbor".into(), bytes: cbor_of(&resp) });
+                renders.push(Render { kind: "get_assertion/debug".into(), bytes: format!("{resp:?}").into_bytes() });
+            }
+            Ok(Err(e)) => renders.push(Render { kind: "ctap-status/debug".into(), bytes: format!("{e:?}").into_bytes() }),
+            Err((sig, d)) => {
+                rep.count("imported_assertions_panicked");
+                renders.push(Render { kind: "panic-message".into(), bytes: format!("{sig} {d}").into_bytes() });
+            }
+        }
+        for line in crate::logsink::drain() {
+            renders.push(Render { kind: "log-line".into(), bytes: line.into_bytes() });
+        }
+        scan_all(rep, &secrets, &renders, &case);
+    }
+}
+
 pub fn run(args: &Args) -> Report {
     let mut rep = Report::new(
         "C06",
         &args.tier,
         args.seed,
-        "every value handed back in seeded ceremony histories (WebAuthn credentials, CTAP2 responses, errors, authenticator info, U2F responses, Debug of stored passkeys, lines the library logs to an installed logger) rendered to JSON, CBOR and Debug text and scanned, with recursive decoding, for every secret read back from the store; distinct by (rendering kind, content hash bucket); non-trivial when the value contains at least one byte string of 32 bytes or more while at least one secret is live",
+        "every value handed back in seeded ceremony histories (WebAuthn credentials, CTAP2 responses, errors, authenticator info, U2F responses, Debug of stored passkeys, the SubjectPublicKeyInfo the public helper derives from a stored key, lines the library logs to an installed logger) and whatever an assertion with an imported credential (PRF secrets of 16-64 bytes) yields, a panic message included, rendered to JSON, CBOR and Debug text and scanned, with recursive decoding, for every secret read back from the store; distinct by (rendering kind, content hash bucket); non-trivial when the value contains at least one byte string of 32 bytes or more while at least one secret is live",
     );
     rep.assumptions.push("PRF outputs are HMACs of a secret, not the secret; chance collisions of random 32-byte values are ignored".into());
     match taint::self_test() {
@@ -220,6 +267,7 @@ pub fn run(args: &Args) -> Report {
     }
     if only.map_or(true, |o| o >= 1_000_000) {
         u2f_workload(&mut rep, args.seed, args.size(60, 1500));
+        imported_credentials(&mut rep, args.seed, args.size(120, 3000));
     }
     if only.is_none() && (rep.get("live_secrets") == 0 || rep.get("rendering:register/json") == 0 || rep.get("rendering:get_assertion/cbor") == 0) {
         rep.inconclusive("no live secret / no registration or assertion rendering was scanned".into());
